@@ -21,10 +21,11 @@ using namespace vx;
 #define VX_CL 0       /* 0: A,OTHERS  1: B  2: DIVIDE_BY_ZERO,OUT_OF_RANGE  3: none  4: OTHERS,A  5: A,B */
 #endif
 static std::list<const Statement*> L_none; static const std::list<const Statement*> *P_body, *P_h1, *P_h2;
+static Context* P_exec_ctx; static bool body_ctx_ok = true, h_ctx_ok = true;
 static int ran_h1, ran_h2, ran_body; static int err_in_h; static bool h_throws; static size_t lvl_in_body, lvl_in_h;
 namespace bloc {
 int Executable::run(Context& ctx, const std::list<const Statement*>& st) {
-  if (&st == P_body) { ++ran_body; lvl_in_body = ctx.execLevel();
+  if (&st == P_body) { ++ran_body; lvl_in_body = ctx.execLevel(); body_ctx_ok = (&ctx == P_exec_ctx);
     switch (VX_KIND) {
     case 1: throw RuntimeError(EXC_RT_USER_S, "A");
     case 2: throw RuntimeError(EXC_RT_USER_S, "B");
@@ -34,6 +35,7 @@ int Executable::run(Context& ctx, const std::list<const Statement*>& st) {
     default: return 0; } }
   if (&st == P_h1 || &st == P_h2) {
     if (&st == P_h1) ++ran_h1; else ++ran_h2;
+    h_ctx_ok = (&ctx == P_exec_ctx);
     err_in_h = ctx.error().no; lvl_in_h = ctx.execLevel();
     if (h_throws) throw RuntimeError(EXC_RT_OUT_OF_RANGE);
     return 0; }
@@ -54,10 +56,12 @@ static bool clause_matches(const char* c) {
 extern "C" void c07_begin()
 {
   static Context ctx(1, 2);
+  static Context cctx(1, 2);        /* the context the block was compiled in: a program may be executed in another one (clone, function body) */
+  P_exec_ctx = &ctx;
   ctx._execstack._stack.reserve(4);
   static BEGINStatement outer, bs;
-  bs._exec = new Executable(ctx, L_none);
-  static Executable h1(ctx, L_none), h2(ctx, L_none);
+  bs._exec = new Executable(cctx, L_none);
+  static Executable h1(cctx, L_none), h2(cctx, L_none);
   P_body = &bs._exec->_statements; P_h1 = &h1._statements; P_h2 = &h2._statements;
   if (CL[VX_CL][0]) bs._catches.push_back(std::make_pair(std::string(CL[VX_CL][0]), &h1));
   if (CL[VX_CL][1]) bs._catches.push_back(std::make_pair(std::string(CL[VX_CL][1]), &h2));
@@ -70,6 +74,7 @@ extern "C" void c07_begin()
   int expect = clause_matches(CL[VX_CL][0]) ? 1 : clause_matches(CL[VX_CL][1]) ? 2 : 0;
   verif_assert(ctx.execLevel() == lvl, "C07/C15: execution level restored on every exit");
   verif_assert(ran_body == 1 && lvl_in_body == lvl + 1, "C07: body runs once, one level deeper");
+  verif_assert(body_ctx_ok && h_ctx_ok, "C07/C14: body and handler run in the context that executes the block, not in the one the block was compiled in");
   verif_assert(ran_h1 == (expect == 1 ? 1 : 0) && ran_h2 == (expect == 2 ? 1 : 0), "C07: exactly the first matching clause runs (others = any catchable kind)");
   if (VX_KIND == 0) verif_assert(!escaped, "C07: no error, nothing reported");
   else if (expect == 0) {
